@@ -126,6 +126,26 @@ def w_exh(pid, tier, seed, job):
     return ctx.dump()
 
 
+def w_long(pid, tier, seed, job):
+    """single reads spanning thousands of sector boundaries (a chain of tiny sectors; the 2048-of-2352 view over a few MiB)"""
+    ctx = F.Ctx(pid, tier, seed)
+    rng = random.Random(job)
+    nsec = 1100 if tier == "quick" else 3000
+    secs = list(range(nsec))
+    rng.shuffle(secs)
+    content = bytes((i * 13 + 7) % 251 for i in range(nsec * 4))
+    spec = ("chain", 4, tuple(secs), ("base",))
+    n = nsec * 4
+    seqs = [[("read", n)], [("read", 7), ("read", n - 100), ("tell",), ("read", 200)]] if job % 2 == 0 else [[("seek", 5, 0), ("read", -1)]]
+    check_batch(ctx, spec, content, 0, seqs)
+    if job % 2 == 1:
+        check_batch(ctx, ("off", n - 8, 3, spec), content, 0, [[("seek", 10, 0), ("read", n - 20)]])
+    if tier != "quick" and job % 2 == 0:
+        raw = bytes((i * 31 + 5) % 253 for i in range(2352 * 1100))
+        check_batch(ctx, ("mdf", ("base",)), raw, 0, [[("read", 2048 * 1100)]])
+    return ctx.dump()
+
+
 def w_rand(pid, tier, seed, job):
     ctx = F.Ctx(pid, tier, seed)
     rng = random.Random(job)
@@ -175,6 +195,7 @@ def run(ctx):
     jobs = [(spec, kk, part, nparts) for spec in FIXED for kk in range(1, k + 1) if kk >= k - 1 or True
             for part in range(nparts if kk == k else 1)]
     F.pmap(ctx, w_exh, jobs)
+    F.pmap(ctx, w_long, [ctx.seed * 7 + i for i in range(2 if ctx.quick else 6)])
     F.pmap(ctx, w_rand, [ctx.seed * 7919 + i for i in range(32 if ctx.quick else 600)])
     ctx.exhaustive = True
     ctx.note("exhaustive op-sequence length: %d over %d fixed views" % (k, len(FIXED)))
